@@ -367,4 +367,51 @@ theorem flow_Conn_Release : Gen.Flow.Conn_Release = [
   "end"
 ] := rfl
 
+theorem flow_EncodeTargetReadyMessage : Gen.Flow.EncodeTargetReadyMessage = [
+  "return []byte(fmt.Sprintf(\"%s|%s\", tunnelID, targetNodeID))"
+] := rfl
+
+theorem flow_DecodeTargetReadyMessage : Gen.Flow.DecodeTargetReadyMessage = [
+  "s := string(data)",
+  "for i := len(s) - 1; i >= 0; i--",
+  "if s[i] == '|'",
+  "tunnelID = s[:i]",
+  "targetNodeID = s[i+1:]",
+  "return",
+  "end",
+  "end",
+  "err = coreerrors.New(coreerrors.CodeInvalidPacket, \"invalid target ready message format\")",
+  "return"
+] := rfl
+
+theorem flow_Listener_handleConnection : Gen.Flow.Listener_handleConnection = [
+  "shouldCloseConn := true",
+  "defer func",
+  "if shouldCloseConn",
+  "conn.Close()",
+  "end",
+  "end()",
+  "tcpConn, ok := conn.(*net.TCPConn)",
+  "if !ok",
+  "return",
+  "end",
+  "tunnelID, frameType, data, err := ReadFrame(tcpConn)",
+  "if err != nil",
+  "return",
+  "end",
+  "tunnelIDStr := TunnelIDToString(tunnelID)",
+  "switch frameType",
+  "case FrameTypeTargetReady",
+  "shouldCloseConn = false",
+  "l.handleTargetReady(ctx, tcpConn, tunnelIDStr, data)",
+  "case FrameTypeHTTPProxy",
+  "l.handleHTTPProxy(ctx, tcpConn, data)",
+  "case FrameTypeDNSQuery",
+  "l.handleDNSQuery(ctx, tcpConn, data)",
+  "case FrameTypeCommand",
+  "l.handleCommand(ctx, tcpConn, data)",
+  "default",
+  "end"
+] := rfl
+
 end Tunnox.C10.Ties
